@@ -33,7 +33,13 @@ RULE = ("(a) structured stream over a common pool of factors (harness/gen_expr.p
         "40 expressions (random and structured) canonicalised in fresh interpreters under PYTHONHASHSEED in {0,1,2} (quick) "
         "or 16 seeds (thorough); (c) multi-world joints (gen_expr.struct_mw_*, appended): leaves whose children share a base "
         "variable across worlds / value marks under Sums in every relation between ranges and duplicated / single bases - "
-        "idempotence, presentation invariance and one fresh-interpreter batch. The branches reached on the real canonicaliser are counted as hit_* tags. A case is "
+        "idempotence, presentation invariance and one fresh-interpreter batch; (d) set-order sensitive shapes "
+        "(gen_expr.struct_setorder: >= 3 sibling Sums over one summand with different multi-variable ranges, sibling leaves "
+        "whose >= 2-element intervention sets differ, same-named counterfactual children with >= 2 subscripts each, 3-4 "
+        "interventions / ranges, sums over multi-world joints) in process and in 2 (quick) / 6 (thorough) systematic "
+        "fresh-interpreter batches, where the set-valued fields are now REALLY built in shuffled construction order "
+        "(enc_expr's frozenset is rebound in the child); wide leaves (4-6 children, 3-4 parents, 3-4 interventions) and "
+        "orderings covering only the event names / with counterfactual elements / with repeated elements. The branches reached on the real canonicaliser are counted as hit_* tags. A case is "
         "non-trivial when the expression contains a product with >=2 factors sharing their first child name, or a "
         "fraction, or a sum that simplifies, and the canonical form differs from the input.")
 ASSUMPTIONS = [
